@@ -174,3 +174,41 @@ daglish.register_node_traverser(
 class DC:
   x: object = 'dx'
   y: object = dataclasses.field(default_factory=list)
+
+
+# ------------------------------------------------------------ fault injection
+def failer(x='dx', y='dy'):
+  """Records its invocation, then raises whatever vfx.FAIL['exc'] makes."""
+  r = vfx.rec('failer', locals())
+  raise vfx.FAIL['exc']()
+
+
+class FailerInstance:
+  """A failing callable without __qualname__ / __name__."""
+
+  def __call__(self, x='dx', y='dy'):
+    vfx.rec('failer_instance', locals())
+    raise vfx.FAIL['exc']()
+
+
+failer_instance = FailerInstance()
+
+
+def nested_builder(x='dx', y='dy'):
+  """Calls fdl.build from inside a callable that is itself being built."""
+  r = vfx.rec('nested_builder', locals())
+  r.bound['inner'] = fdl.build(fdl.Config(node, x='inner'))
+  return r
+
+
+class BadRepr:
+  """An argument whose repr raises."""
+
+  def __init__(self, exc_type):
+    self.exc_type = exc_type
+
+  def __canon__(self):
+    return self.exc_type.__name__
+
+  def __repr__(self):
+    raise self.exc_type('repr failed')
